@@ -46,6 +46,7 @@ import (
 	"go.temporal.io/server/common/headers"
 	"go.temporal.io/server/common/log"
 	"google.golang.org/grpc"
+	"google.golang.org/grpc/connectivity"
 	"google.golang.org/grpc/metadata"
 	"google.golang.org/grpc/peer"
 
@@ -244,19 +245,21 @@ type vipArrival struct {
 }
 
 type vipHarness struct {
-	mu       sync.Mutex
-	enc      *json.Encoder
-	seq, run int
-	names    []string
-	inst     map[string]*vipInst
-	arrivals []vipArrival
-	seen     map[*intraProxyStreamReceiver]bool // every receiver object ever seen in a table of this run
-	nextID   int64
-	wait     time.Duration
-	stop     chan struct{}
-	nsrv     int
-	baseRecv int // receiver goroutines a previous run left behind (reported in its Teardown event)
-	wg       sync.WaitGroup
+	mu                  sync.Mutex
+	enc                 *json.Encoder
+	seq, run            int
+	names               []string
+	inst                map[string]*vipInst
+	arrivals            []vipArrival
+	seen                map[*intraProxyStreamReceiver]bool // every receiver object ever seen in a table of this run
+	spun                map[int64]bool                     // pruned receivers that kept waiting for a local channel for a full bound (reported)
+	nextID              int64
+	wait                time.Duration // bound of every wait for progress in the current run
+	waitFull, waitShort time.Duration
+	stop                chan struct{}
+	nsrv                int
+	baseRecv            int // receiver goroutines a previous run left behind (reported in its Teardown event)
+	wg                  sync.WaitGroup
 }
 
 func vipLoggers() logging.LoggerProvider {
@@ -301,10 +304,12 @@ func (h *vipHarness) reset(sc *vipSched) {
 	h.mu.Lock()
 	defer h.mu.Unlock()
 	h.run++
+	h.wait = h.waitFull
 	h.names = append([]string{}, sc.Inst...)
 	h.inst = map[string]*vipInst{}
 	h.arrivals = nil
 	h.seen = map[*intraProxyStreamReceiver]bool{}
+	h.spun = map[int64]bool{}
 	h.nextID = 0
 	h.stop = make(chan struct{})
 	addrs := map[string]string{}
@@ -480,10 +485,11 @@ func vipSpinners() map[int64]bool {
 
 // ---- snapshot of the real tables
 type vipRecvEntry struct {
-	i, p string
-	t, s int
-	r    *intraProxyStreamReceiver
-	open bool
+	i, p  string
+	t, s  int
+	r     *intraProxyStreamReceiver
+	open  bool
+	ready bool // the client connection to the peer is READY: a stream that is being created will not wait for the link
 }
 type vipSendEntry struct {
 	i, p string
@@ -499,8 +505,9 @@ func (h *vipHarness) tables() ([]vipRecvEntry, []vipSendEntry) {
 		m := in.sm.intraMgr
 		m.streamsMu.RLock()
 		for p, ps := range m.peers {
+			ready := ps.conn != nil && ps.conn.GetState() == connectivity.Ready
 			for k, r := range ps.receivers {
-				rs = append(rs, vipRecvEntry{i: n, p: p, t: vipNum(k.targetShard), s: vipNum(k.sourceShard), r: r, open: r != nil && r.streamClient != nil})
+				rs = append(rs, vipRecvEntry{i: n, p: p, t: vipNum(k.targetShard), s: vipNum(k.sourceShard), r: r, open: r != nil && r.streamClient != nil, ready: ready})
 			}
 			for k, s := range ps.senders {
 				var w *vipSrvStream
@@ -527,8 +534,25 @@ func (h *vipHarness) settle() []string {
 	var why []string
 	for {
 		why = h.unsettled()
-		if len(why) == 0 || time.Now().After(deadline) {
+		if len(why) == 0 {
 			return why
+		}
+		if time.Now().After(deadline) {
+			// the expired wait is the observation (recorded in the event); the rest of this run does not pay the full bound again
+			h.wait = h.waitShort
+			// a pruned receiver that still waits for a local channel is reported through its state ("spin") in the snapshots
+			rest := []string{}
+			h.mu.Lock()
+			for _, x := range why {
+				var gid int64
+				if n, _ := fmt.Sscanf(x, "spin-pruned:%d", &gid); n == 1 {
+					h.spun[gid] = true
+				} else {
+					rest = append(rest, x)
+				}
+			}
+			h.mu.Unlock()
+			return rest
 		}
 		time.Sleep(200 * time.Microsecond)
 	}
@@ -561,7 +585,7 @@ func (h *vipHarness) unsettled() []string {
 			h.inst[e.p].lis.mu.Lock()
 			held := h.inst[e.p].lis.held
 			h.inst[e.p].lis.mu.Unlock()
-			if !held {
+			if !held || e.ready {
 				why = append(why, "opening")
 			}
 		}
@@ -599,6 +623,10 @@ func (h *vipHarness) unsettled() []string {
 			}
 			if c.state != "gone" {
 				alive[c.r] = true
+			}
+			if c.state == "run" && spin[c.gid] && !inTable[c.r] && !h.spun[c.gid] {
+				// pruned while it waits for a local channel: it has to notice (progress clause, bounded wait)
+				why = append(why, fmt.Sprintf("spin-pruned:%d", c.gid))
 			}
 		}
 		for _, w := range in.streams {
@@ -807,7 +835,7 @@ func (h *vipHarness) snapshot(ev map[string]interface{}) {
 		for _, c := range in.clis {
 			if c.state != "gone" {
 				st := c.state
-				if st == "run" && spin[c.gid] {
+				if st == "run" && spin[c.gid] && (inTable[c.r] || h.spun[c.gid]) {
 					st = "spin" // waits for a local channel of its target shard (retry loop with sleeps)
 				}
 				cli = append(cli, []interface{}{n, c.r.peerNodeName, vipNum(c.r.targetShardID), vipNum(c.r.sourceShardID), st, inTable[c.r]})
@@ -871,7 +899,15 @@ func (h *vipHarness) exec(c vipCmd) map[string]interface{} {
 	case "Leave":
 		(&shardEventDelegate{manager: in.sm, logger: log.NewNoopLogger()}).NotifyLeave(&memberlist.Node{Name: c.J, Addr: net.IPv4(127, 0, 0, 1)})
 	case "Hold":
-		h.inst[c.J].lis.setHeld(true)
+		// the server of j is unreachable: new connections do not get ready, the established ones die
+		l := h.inst[c.J].lis
+		l.setHeld(true)
+		l.mu.Lock()
+		for addr, conn := range l.conns {
+			_ = conn.Close()
+			delete(l.conns, addr)
+		}
+		l.mu.Unlock()
 	case "Unhold":
 		h.inst[c.J].lis.setHeld(false)
 	case "Break":
@@ -1006,6 +1042,9 @@ func (h *vipHarness) step(c vipCmd) {
 
 func (h *vipHarness) fingerprint() string {
 	rs, ss := h.tables()
+	for k := range rs {
+		rs[k].ready = false
+	}
 	return fmt.Sprint(rs, ss)
 }
 
@@ -1088,7 +1127,7 @@ func TestVerifIntraProxySchedules(t *testing.T) {
 	defer outf.Close()
 	w := bufio.NewWriterSize(outf, 1<<16)
 	defer w.Flush()
-	h := &vipHarness{enc: json.NewEncoder(w), wait: 5 * time.Second, inst: map[string]*vipInst{}}
+	h := &vipHarness{enc: json.NewEncoder(w), wait: 5 * time.Second, waitFull: 5 * time.Second, waitShort: 250 * time.Millisecond, inst: map[string]*vipInst{}}
 	sc := bufio.NewScanner(f)
 	sc.Buffer(make([]byte, 1<<20), 1<<26)
 	for sc.Scan() {
